@@ -39,9 +39,13 @@ def pipeline_session(sid, g, rng, perms=None, k=2, feedback=False, repeat=False,
     n = g.number_of_nodes()
     objs = [o]
     for p in (perms if perms is not None else [gen.random_perm(rng, n) for _ in range(k)]):
-        h = relabel(S.objs[o], p, rng)
-        if unordered and rng.random() < 0.5:
-            h = reorder_nodes(h, rng)
+        if unordered and rng.random() < 0.3:
+            # the way a user of networkx renumbers a graph: atoms keep their listing order, graph-level data is kept
+            h = nx.relabel_nodes(S.objs[o], {a: p[a] for a in S.objs[o].nodes}, copy=True)
+        else:
+            h = relabel(S.objs[o], p, rng)
+            if unordered and rng.random() < 0.5:
+                h = reorder_nodes(h, rng)
         objs.append(S.derive(o, h, p))
     if nonidentity:
         h = perturb_nonidentity(S.objs[o], rng)
@@ -58,6 +62,16 @@ def pipeline_session(sid, g, rng, perms=None, k=2, feedback=False, repeat=False,
             c_again = S.canon(x)
             if c_again:
                 S.ser(c_again)
+        if feedback and rng.random() < 0.5:
+            # a renumbered copy of the canonical graph, made with networkx (keeps whatever the library attached to the graph)
+            q = gen.random_perm(rng, n)
+            K = S.objs[c]
+            if sorted(K.nodes) == list(range(n)):
+                hk = nx.relabel_nodes(K, {a: q[a] for a in K.nodes}, copy=True)
+                dk = S.derive(c, hk, q)
+                ck = S.canon(dk)
+                if ck:
+                    S.ser(ck)
         if feedback:
             cc = S.canon(c)          # a canonical graph is a legitimate description too (atoms not listed in label order)
             if cc:
@@ -148,4 +162,21 @@ def special_molecules():
     out.append(("CoCl2", M([("Co", 0, 0, 0), ("Cl", 0, 0, 0), ("Cl", 0, 0, 0)], [(0, 1, 1), (0, 2, 1)])))
     out.append(("HF+HCl", M([("H", 0, 0, 0), ("F", 0, 0, 0), ("H", 0, 0, 0), ("Cl", 0, 0, 0)], [(0, 1, 1), (2, 3, 1)])))
     out.append(("HDO", M([("H", 0, 0, 0), ("H", 2, 0, 0), ("O", 0, 0, 0)], [(0, 2, 1), (1, 2, 1)])))
+    out.append(("CDCl3", M([("C", 0, 0, 0), ("H", 2, 0, 0), ("Cl", 0, 0, 0), ("Cl", 0, 0, 0), ("Cl", 0, 0, 0)], [(0, 1, 1), (0, 2, 1), (0, 3, 1), (0, 4, 1)])))
+    out.append(("DCl", M([("H", 2, 0, 0), ("Cl", 0, 0, 0)], [(0, 1, 1)])))
+    out.append(("TCCH", M([("C", 0, 0, 0), ("C", 0, 0, 0), ("H", 3, 0, 0), ("H", 0, 0, 0)], [(0, 1, 3), (0, 2, 1), (1, 3, 1)])))
+    out.append(("Na+36Cl-", M([("Na", 0, 0, 1), ("Cl", 36, 0, -1)], [])))
+    out.append(("Na+Cl-", M([("Na", 0, 0, 1), ("Cl", 0, 0, -1)], [])))
+    out.append(("3He", M([("He", 3, 0, 0)], [])))
+    out.append(("H2O.Clrad", M([("H", 0, 0, 0), ("H", 0, 0, 0), ("O", 0, 0, 0), ("Cl", 0, 2, 0)], [(0, 2, 1), (1, 2, 1)])))
+    out.append(("LiOAc", M([("Li", 0, 0, 1), ("C", 0, 0, 0), ("C", 0, 0, 0), ("O", 0, 0, 0), ("O", 0, 0, -1), ("H", 0, 0, 0), ("H", 0, 0, 0), ("H", 0, 0, 0)],
+                           [(1, 2, 1), (2, 3, 2), (2, 4, 1), (1, 5, 1), (1, 6, 1), (1, 7, 1)])))
+    out.append(("LiOH", M([("Li", 0, 0, 1), ("O", 0, 0, -1), ("H", 0, 0, 0)], [(1, 2, 1)])))
+    out.append(("BrEtOH.O", M([("Br", 0, 0, 0), ("C", 0, 0, 0), ("C", 0, 0, 0), ("O", 0, 0, 0), ("O", 0, 0, 0)] + [("H", 0, 0, 0)] * 5,
+                              [(0, 1, 1), (1, 2, 1), (2, 3, 1), (1, 5, 1), (1, 6, 1), (2, 7, 1), (2, 8, 1), (3, 9, 1)])))
+    out.append(("C16O18O", M([("C", 0, 0, 0), ("O", 16, 0, 0), ("O", 18, 0, 0)], [(0, 1, 2), (0, 2, 2)])))
+    out.append(("N2H4-rad", M([("N", 0, 2, 0), ("N", 0, 0, 0)] + [("H", 0, 0, 0)] * 3, [(0, 1, 1), (0, 2, 1), (1, 3, 1), (1, 4, 1)])))
+    out.append(("14N15N", M([("N", 14, 0, 0), ("N", 15, 0, 0)], [(0, 1, 3)])))
+    hub = [("Fe", 0, 0, 0)] + [("C", 0, 0, 0)] * 12
+    out.append(("hub12", M(hub, [(0, i, 1) for i in range(1, 13)] + [(i, i + 1, 1) for i in range(1, 12)])))
     return out
